@@ -36,6 +36,40 @@ func assemble(twin *types.Block, txs []*types.Transaction) *types.Block {
 	return types.NewBlockWithHeader(h).WithBody(txs, nil)
 }
 
+// forgeHeader: the twin's body under a header changed by mod (everything else,
+// including every root, stays the honest one).
+func forgeHeader(twin *types.Block, mod func(h *types.Header)) *types.Block {
+	h := types.CopyHeader(twin.Header())
+	mod(h)
+	return types.NewBlockWithHeader(h).WithBody(twin.Transactions(), nil)
+}
+
+// storedGasConsistent reads an imported block and its receipts back from the
+// node and compares header gas used, the last receipt's cumulative gas and the
+// sum of the receipts' own gas. ok == false comes with a description.
+func storedGasConsistent(bc *core.BlockChain, hash common.Hash) (string, bool) {
+	blk := bc.GetBlockByHash(hash)
+	if blk == nil {
+		return "block not stored", false
+	}
+	rs := bc.GetReceiptsByHash(hash)
+	if len(rs) != len(blk.Transactions()) {
+		return fmt.Sprintf("%d receipts stored for %d transactions", len(rs), len(blk.Transactions())), false
+	}
+	sum, last := uint64(0), uint64(0)
+	for _, rc := range rs {
+		sum += rc.GasUsed
+		last = rc.CumulativeGasUsed
+	}
+	if blk.GasUsed() != sum || last != sum {
+		return fmt.Sprintf("stored header gas used %d, last receipt cumulative gas %d, sum of receipt gas %d", blk.GasUsed(), last, sum), false
+	}
+	if blk.GasUsed() > blk.GasLimit() {
+		return fmt.Sprintf("stored header gas used %d above the block gas limit %d", blk.GasUsed(), blk.GasLimit()), false
+	}
+	return "", true
+}
+
 var scenarioClasses = []string{"nonce", "prepay", "value", "intrinsic", "block_rest"}
 
 type invInput struct {
@@ -382,10 +416,64 @@ func scenario(c *fw.Ctx, r *fw.Rand, cfgName, class string, height int) {
 			return
 		}
 	}
+	// --- forged header commitment: the twin's honest body, roots and bloom under
+	// a header whose gas used is not the sum over the receipts
+	cum, limit := twin.GasUsed(), twin.GasLimit()
+	type forged struct {
+		label string
+		gas   uint64
+	}
+	var fg []forged
+	if cum+1 <= limit {
+		fg = append(fg, forged{"gas_used_plus_1", cum + 1})
+	}
+	if cum > 0 {
+		fg = append(fg, forged{"gas_used_minus_1", cum - 1})
+	}
+	if limit-cum >= 3 {
+		fg = append(fg, forged{"gas_used_plus_n", cum + uint64(r.Range(2, int(min(limit-cum-1, 2000000))))})
+	}
+	if limit > cum+1 {
+		fg = append(fg, forged{"gas_used_equals_limit", limit})
+	}
+	for _, f := range fg {
+		fb := forgeHeader(twin, func(h *types.Header) { h.GasUsed = f.gas })
+		in := map[string]interface{}{"config": cfgName, "class": class, "block": twin.NumberU64(), "variant": f.label, "header_gas_used": f.gas,
+			"sum_of_receipt_gas": cum, "block_gas_limit": limit, "twin_kinds": b.kinds, "byzantium": b.byz}
+		where := fmt.Sprintf("%s block %d (%d transactions %v): header gas used %d, the transactions use %d, block gas limit %d", cfgName, twin.NumberU64(), len(twin.Transactions()), b.kinds, f.gas, cum, limit)
+		idx, err := judge.InsertChain(types.Blocks{fb})
+		head := judge.CurrentBlock()
+		if err == nil || head.Hash() != fundBlock.Hash() {
+			detail := where + fmt.Sprintf(": InsertChain returned %v at %d, head is block %d", err, idx, head.NumberU64())
+			if head.Hash() == fb.Hash() {
+				if d, ok := storedGasConsistent(judge, fb.Hash()); !ok {
+					detail += "; " + d
+				}
+			}
+			c.ViolateInput("header_gas_used_not_enforced", "InsertChain", f.label, detail, in)
+			return // the judge chain is spoilt
+		}
+		if idx != 0 {
+			c.ViolateInput("invalid_block_failed_at_wrong_index", "InsertChain", f.label, where+fmt.Sprintf(": failed at index %d: %v", idx, err), in)
+		}
+		c.Count("forged_gas_used_rejected")
+		c.Count("forged_gas_used_rejected_" + f.label)
+		if !strings.HasPrefix(err.Error(), "invalid gas used") {
+			c.Count("forged_gas_used_rejected_for_another_reason")
+			c.Note("%s: refused with %v", where, err)
+		}
+		c.Nontrivial(fmt.Sprintf("forged|%s|%s|%x|%d", cfgName, f.label, twin.Hash(), f.gas))
+	}
+
 	in := map[string]interface{}{"config": cfgName, "class": class, "block": twin.NumberU64(), "position": pos, "twin_tx": x.describe(), "twin_kinds": b.kinds}
 	if i, err := judge.InsertChain(types.Blocks{twin}); err != nil || judge.CurrentBlock().Hash() != twin.Hash() {
 		c.ViolateInput("boundary_valid_twin_rejected", "InsertChain", class, fmt.Sprintf("%s block %d: the twin %s at position %d was refused by the second node (index %d): %v", cfgName, twin.NumberU64(), x.describe(), pos, i, err), in)
 		return
+	}
+	if d, ok := storedGasConsistent(judge, twin.Hash()); !ok {
+		c.ViolateInput("cumulative_gas_not_sum_of_receipts", "InsertChain", "stored_block", fmt.Sprintf("%s block %d on the second node: %s", cfgName, twin.NumberU64(), d), in)
+	} else {
+		c.Count("stored_block_gas_compared")
 	}
 	c.Count("twin_block_accepted")
 	c.Count("twin_block_accepted_" + class)
